@@ -22,8 +22,20 @@ theorem Tracks.trans {a b c : Multi σ} (h1 : Tracks a b) (h2 : Tracks b c) : Tr
   obtain ⟨s2, l2, t2⟩ := h2 o
   exact ⟨s1 ++ s2, by rw [l2, l1, List.append_assoc], by rw [proj_append]; exact track_append_of t1 t2⟩
 
-theorem Tracks.step (s : Multi σ) (o : Nat) (m : MOp) : Tracks s (s.step io Cfg.fixed o m) :=
-  fun o' => Multi.step_track io s o m o'
+theorem Tracks.step (s : Multi σ) (o : Nat) (m : MOp) (hc : s.copiesOpen o m = false) :
+    Tracks s (s.step io Cfg.fixed o m) :=
+  fun o' => Multi.step_track io s o m hc o'
+
+/-- what the proofs about programs need of a relation between system states: it is reflexive, transitive and holds
+    across every single step that does not copy / assign an open File.  (`Tracks`: each object's log; `GTracks` in
+    Lemmas/FileGlobal.lean: the log of the process over handles.) -/
+structure StepRel (R : Multi σ → Multi σ → Prop) : Prop where
+  refl : ∀ s, R s s
+  trans : ∀ {a b c}, R a b → R b c → R a c
+  step : ∀ s o m, s.copiesOpen o m = false → R s (s.step io Cfg.fixed o m)
+
+theorem tracksRel : StepRel io (Tracks (σ := σ)) :=
+  ⟨Tracks.refl, fun h1 h2 => h1.trans h2, Tracks.step io⟩
 
 theorem stepO_fst (cfg : Cfg) (s : Multi σ) (o : Nat) (m : MOp) :
     (Multi.stepO io cfg s o m).1 = s.step io cfg o m := by
@@ -76,11 +88,12 @@ theorem evalSrc_evs (cfg : Cfg) (s : Multi σ) (src : Src) :
     simp only [evalSrc]
     rcases Multi.stepO io cfg s (freshName s.objs name) (.new args) with ⟨s', _ | r⟩ <;> rfl
 
-theorem evalSrc_tracks (s : Multi σ) (src : Src) : Tracks s (evalSrc io Cfg.fixed s src).m := by
+theorem evalSrc_rel {R : Multi σ → Multi σ → Prop} (hR : StepRel io R) (s : Multi σ) (src : Src) :
+    R s (evalSrc io Cfg.fixed s src).m := by
   rw [evalSrc_m]
   cases src with
-  | var o => exact Tracks.refl s
-  | newFile name args => exact Tracks.step io s _ _
+  | var o => exact hR.refl s
+  | newFile name args => exact hR.step s _ _ rfl
 
 theorem initClause_x (cfg : Cfg) (s : Multi σ) (src : Src) :
     (initClause io cfg s src).x = (evalSrc io cfg s src).x := by
@@ -101,11 +114,12 @@ theorem initClause_evs (cfg : Cfg) (s : Multi σ) (src : Src) :
   simp only [initClause]
   cases h : (evalSrc io cfg s src).x <;> simp [evalSrc_evs, h]
 
-theorem initClause_tracks (s : Multi σ) (src : Src) : Tracks s (initClause io Cfg.fixed s src).m := by
+theorem initClause_rel {R : Multi σ → Multi σ → Prop} (hR : StepRel io R) (s : Multi σ) (src : Src) :
+    R s (initClause io Cfg.fixed s src).m := by
   rw [initClause_m]
   cases (evalSrc io Cfg.fixed s src).x with
-  | none => exact evalSrc_tracks io s src
-  | some x => exact (evalSrc_tracks io s src).trans (Tracks.step io _ _ _)
+  | none => exact evalSrc_rel io hR s src
+  | some x => exact hR.trans (evalSrc_rel io hR s src) (hR.step _ _ _ rfl)
 
 theorem stopIn_m (cfg : Cfg) (s : Multi σ) (y : Nat) (c0 : List Call) (e0 : List WEv) :
     (stopIn io cfg s y c0 e0).m = s.step io cfg y (.op .withExit) := by
@@ -125,41 +139,56 @@ theorem stepClause_fixed (cfg : Cfg) (s : Multi σ) (src : Src) (x : Nat) :
   simp only [stepClause, WithCfg.fixed]
   exact ⟨stopIn_m io cfg s x [] [], by rw [stopIn_evs]; rfl⟩
 
-theorem stepClause_tracks (w : WithCfg) (s : Multi σ) (src : Src) (x : Nat) :
-    Tracks s (stepClause io Cfg.fixed w s src x).m := by
+theorem stepClause_rel {R : Multi σ → Multi σ → Prop} (hR : StepRel io R) (w : WithCfg) (s : Multi σ) (src : Src) (x : Nat) :
+    R s (stepClause io Cfg.fixed w s src x).m := by
   simp only [stepClause]
   cases w.stepArg with
-  | bound => simp only []; rw [stopIn_m]; exact Tracks.step io s _ _
+  | bound => simp only []; rw [stopIn_m]; exact hR.step s _ _ rfl
   | source =>
     simp only []
     cases h : (evalSrc io Cfg.fixed s src).x with
-    | none => simp only []; exact evalSrc_tracks io s src
-    | some y => simp only []; rw [stopIn_m]; exact (evalSrc_tracks io s src).trans (Tracks.step io _ _ _)
+    | none => simp only []; exact evalSrc_rel io hR s src
+    | some y => simp only []; rw [stopIn_m]; exact hR.trans (evalSrc_rel io hR s src) (hR.step _ _ _ rfl)
 
 /-! ### whole programs -/
 
 mutual
-theorem execStmt_tracks (w : WithCfg) : ∀ (st : Stmt) (s : WSys σ), Tracks s.m (execStmt io Cfg.fixed w st s).m
-  | .op o m, s => by simp only [execStmt]; exact Tracks.step io s.m o m
-  | .withIn src body leave, s => by
+/-- a program that never copies / assigns an open File: the relation holds from its start to its end -/
+theorem execStmt_rel {R : Multi σ → Multi σ → Prop} (hR : StepRel io R) (w : WithCfg) :
+    ∀ (st : Stmt) (s : WSys σ), cleanStmt io Cfg.fixed w st s = true → R s.m (execStmt io Cfg.fixed w st s).m
+  | .op o m, s, hc => by
+    simp only [cleanStmt, Bool.not_eq_true'] at hc
+    simp only [execStmt]; exact hR.step s.m o m hc
+  | .withIn src body leave, s, hc => by
     simp only [execStmt]
+    simp only [cleanStmt] at hc
     cases hx : (initClause io Cfg.fixed s.m src).x with
-    | none => simp only []; exact initClause_tracks io s.m src
+    | none => simp only []; exact initClause_rel io hR s.m src
     | some x =>
+      simp only [hx] at hc
       simp only []
-      have hb := execList_tracks w body ⟨(initClause io Cfg.fixed s.m src).m, s.ev ++ (initClause io Cfg.fixed s.m src).evs⟩
-      have hi := initClause_tracks io s.m src
+      have hb := execList_rel hR w body ⟨(initClause io Cfg.fixed s.m src).m, s.ev ++ (initClause io Cfg.fixed s.m src).evs⟩ hc
+      have hi := initClause_rel io hR s.m src
       cases leave <;> simp only [Leave.runsStep, if_true, if_false, Bool.false_eq_true]
-      · exact (hi.trans hb).trans (stepClause_tracks io w _ src x)
-      · exact (hi.trans hb).trans (stepClause_tracks io w _ src x)
-      · exact hi.trans hb
-      · exact hi.trans hb
-theorem execList_tracks (w : WithCfg) : ∀ (p : List Stmt) (s : WSys σ), Tracks s.m (execList io Cfg.fixed w p s).m
-  | [], s => by simp only [execList]; exact Tracks.refl s.m
-  | st :: rest, s => by
+      · exact hR.trans (hR.trans hi hb) (stepClause_rel io hR w _ src x)
+      · exact hR.trans (hR.trans hi hb) (stepClause_rel io hR w _ src x)
+      · exact hR.trans hi hb
+      · exact hR.trans hi hb
+      · exact hR.trans hi hb
+theorem execList_rel {R : Multi σ → Multi σ → Prop} (hR : StepRel io R) (w : WithCfg) :
+    ∀ (p : List Stmt) (s : WSys σ), cleanList io Cfg.fixed w p s = true → R s.m (execList io Cfg.fixed w p s).m
+  | [], s, _ => by simp only [execList]; exact hR.refl s.m
+  | st :: rest, s, hc => by
+    simp only [cleanList, Bool.and_eq_true] at hc
     simp only [execList]
-    exact (execStmt_tracks w st s).trans (execList_tracks w rest _)
+    exact hR.trans (execStmt_rel hR w st s hc.1) (execList_rel hR w rest _ hc.2)
 end
+
+theorem execStmt_tracks (w : WithCfg) (st : Stmt) (s : WSys σ) (hc : cleanStmt io Cfg.fixed w st s = true) :
+    Tracks s.m (execStmt io Cfg.fixed w st s).m := execStmt_rel io (tracksRel io) w st s hc
+
+theorem execList_tracks (w : WithCfg) (p : List Stmt) (s : WSys σ) (hc : cleanList io Cfg.fixed w p s = true) :
+    Tracks s.m (execList io Cfg.fixed w p s).m := execList_rel io (tracksRel io) w p s hc
 
 /-! ### the protocol automaton -/
 
@@ -269,6 +298,9 @@ theorem execStmt_protocol (cfg : Cfg) : ∀ (st : Stmt) (s : WSys σ) (stack : L
         · rw [hb1]; simp [List.append_assoc]
         · exact wtrack_append_of (wtrack_append_of hinit hb2) (by simp [wtrack, wtrackEv])
       · refine ⟨(initClause io cfg s.m src).evs ++ bevs ++ [.left .throw], ?_, ?_⟩
+        · rw [hb1]; simp [List.append_assoc]
+        · exact wtrack_append_of (wtrack_append_of hinit hb2) (by simp [wtrack, wtrackEv])
+      · refine ⟨(initClause io cfg s.m src).evs ++ bevs ++ [.left .ret], ?_, ?_⟩
         · rw [hb1]; simp [List.append_assoc]
         · exact wtrack_append_of (wtrack_append_of hinit hb2) (by simp [wtrack, wtrackEv])
 theorem execList_protocol (cfg : Cfg) : ∀ (p : List Stmt) (s : WSys σ) (stack : List Nat),
